@@ -41,6 +41,7 @@ pub struct EnvOut {
 pub fn tids_of(p: &Puppet) -> Vec<i32> {
     let mut t = vec![p.pid];
     t.extend(p.threads.iter().map(|x| x.tid));
+    t.extend(p.extra_tids.iter().copied());
     t
 }
 
